@@ -105,6 +105,9 @@ func RunSchedule(budget int) string {
 			return "budget" // threads that wait for ticks or for each other never finish
 		}
 	}
+	// the controlled schedule runs one thread at a time; on one processor, so that per-processor
+	// runtime state (sync.Pool's private slot) behaves as it does for threads that share a processor
+	defer runtime.GOMAXPROCS(runtime.GOMAXPROCS(1))
 	// wait until every thread reached its first park
 	for _, t := range snapshot() {
 		<-t.parked
